@@ -1,5 +1,6 @@
 import MW.Inv.GReach
 import MW.Chain.World
+import MW.Inv.WorldInv
 /-!
 # C07 — Outbound IBC transfers are tracked and recovered without loss or duplication
 -/
@@ -250,6 +251,30 @@ theorem stake_reply_ids_distinct (id : Nat) : id ≠ id + 1 := by omega
 /-- in every reachable state the packet table is keyed by sequence (each entry's sequence is its key) -/
 theorem inflight_keyed_by_sequence (s : CState) (h : CReach s) (k : Nat) (p : Packet)
     (hp : s.inflight.find? k = some p) : p.seq = k := (cinv_reach h).seqKey k p hp
+
+/-- **P2 (tracking), every history.**  Along every history of the chain model that satisfies the
+honest-environment conditions, every transfer packet the chain holds as pending was sent by the
+contract on its configured channel and is tracked in the contract's packet table under its
+sequence number, as `sent`, with the same coin and receiver; sequence numbers never repeat and
+every table key is a sequence number the chain has already issued -/
+theorem P2_tracking_world {env : Env} {info : Info} {msg : InstantiateMsg} {c0 : CState} {out : List SubMsg}
+    (hi : instantiate env info msg = .ok (c0, out)) (self pfx : String) (t hgt : Nat) (evs : List Event)
+    (hok : AllOK (bootWorld c0 self pfx t hgt) evs) :
+    let w := (runW (bootWorld c0 self pfx t hgt) {} evs).1
+    (∀ p ∈ w.pkts, p.sender = w.self ∧ p.seq < w.nextSeq)
+    ∧ (w.pkts.map (·.seq)).Nodup
+    ∧ (∀ k e, w.c.inflight.find? k = some e → k < w.nextSeq)
+    ∧ (∀ p ∈ w.pkts, p.state = .pending → p.channel = w.c.config.proto.channel ∧
+        w.c.inflight.find? p.seq = some { seq := p.seq, coin := p.coin, receiver := p.receiver, status := .sent }) := by
+  have h := (world_history_winv hi self pfx t hgt evs hok).pkt
+  exact ⟨fun p hp => ⟨h.sender p hp, h.seqLt p hp⟩, h.nodup, h.keyLt, h.p2⟩
+
+/-- a refunded packet (error acknowledgement or timeout of a pending one) becomes refundable with
+exactly the coins that came back; a delivered one is dropped from the table (the two world
+transitions used by the proof of `P2_tracking_world`, stated on their own) -/
+theorem refund_keeps_invariants {w : World} {g : WGhost} {p : ChainPkt} {st : PktStatus} (hr : CReach w.c) (hi : WInv w g)
+    (hpm : p ∈ w.pkts) (hpend : p.state = .pending) (hst : st = .ackFailure ∨ st = .timedOut) :
+    WInv (refundWorld w p st) g := refund_winv hr hi hpm hpend hst
 
 /-- non-vacuity: a refundable packet is selected, a sent one is not -/
 example : refundable "r" { seq := 1, coin := ⟨"d", 5⟩, receiver := "r", status := .timedOut } = true
